@@ -248,12 +248,18 @@ def build(node):
     return B(node, obj, kids)
 
 
-def call_obj(obj, votes, kw):
+def call_obj(obj, votes, kw, watch=None):
     """the wrapper call as a user writes it: votes and n_seats positionally, the rest by keyword"""
     votes = copy.deepcopy(votes)
     kw = copy.deepcopy(kw)
-    pos = [kw.pop('n')] if 'n' in kw else []
-    return obj.evaluate(votes, *pos, **{KW[k]: v for k, v in kw.items()})
+    before = (copy.deepcopy(votes), copy.deepcopy(kw))
+    kw2 = dict(kw)
+    pos = [kw2.pop('n')] if 'n' in kw2 else []
+    try:
+        return obj.evaluate(votes, *pos, **{KW[k]: v for k, v in kw2.items()})
+    finally:
+        if watch is not None and (votes, kw) != before:
+            watch.append('arguments_mutated')
 
 
 # ------------------------------------------------------------------------------------------------
@@ -566,9 +572,10 @@ def impl(case):
     except Exception as e:      # noqa
         return {'res': {'err': 'build:' + err_name(e)}, 'flags': []}
     votes, kw = _args(case)
-    res = guarded(lambda: enc(call_obj(root.obj, votes, kw)))
+    watch = []
+    res = guarded(lambda: enc(call_obj(root.obj, votes, kw, watch)))
     flags = [[bool(vcore.accepts_seats(b.obj)), bool(vcore.accepts_prev_gains(b.obj))] for b in root.preorder()]
-    return {'res': res, 'flags': flags}
+    return {'res': res, 'flags': flags, 'mutated': bool(watch)}
 
 
 def _is_err(x):
@@ -691,11 +698,13 @@ def oracle(case, obs):
     w = obs['res']
     if _is_err(w) and str(w['err']).startswith('build:'):
         return [('build_failed', w['err'])]
+    if obs.get('mutated'):
+        out.append((case['tree']['k'] + ':arguments_mutated', 'the call changed the votes / prev_gains / max_seats it was given'))
     h, hd, root = hand_eval(case)
     if isinstance(h, dict) and h.get('unspecified'):
-        return []
+        return out
     if _agree(w, h):
-        return []
+        return out
     # blame the deepest wrapper call that differs from its hand composition
     for b, votes, kw, outcome in hd.trace:
         if b.kind in LEAF_TAKES:
@@ -705,9 +714,9 @@ def oracle(case, obs):
         ww = guarded(lambda: enc(call_obj(b.obj, votes, kw)))
         if not _agree(ww, hh):
             code = diagnose(b, votes, kw, ww, hh)
-            return [(code, f'{describe_node(b.node)} with {describe_kw(kw)}: wrapper {json.dumps(canon_v(ww))} '
+            return out + [(code, f'{describe_node(b.node)} with {describe_kw(kw)}: wrapper {json.dumps(canon_v(ww))} '
                            f'hand composition {json.dumps(_canon_hand(hh))}')]
-    return [(f'{root.kind}:differs_untraced', f'wrapper {json.dumps(w)} hand {json.dumps(h)}')]
+    return out + [(f'{root.kind}:differs_untraced', f'wrapper {json.dumps(w)} hand {json.dumps(h)}')]
 
 
 def compare(case, iobs, mobs):
@@ -925,7 +934,8 @@ def g_app(rng, d, cons, kind):
     if kind == 'app_dist':
         return {'ev': g_d1(rng, max(d, 0)) if rng.random() < 0.5 else leaf('ha', divisor=rng.choice(DIVS))}
     if kind == 'app_dist_seatless':
-        return {'ev': {'k': 'fixed', 'e': leaf('ha', divisor=rng.choice(DIVS)), 'n': str(rng.randint(1, 8))}}
+        return {'ev': {'k': 'fixed', 'e': leaf('ha', divisor=rng.choice(DIVS)),
+                       'n': str(rng.randint(2 * len(cons), 3 * len(cons) + 2))}}
     return None
 
 
